@@ -7,8 +7,9 @@ HasLo(k) == "lo" \in DOMAIN k
 NLast(k) == IF HasLo(k) THEN k.n ELSE Len(k.last)
 LastVal(k, j) == IF HasLo(k) THEN FromInt(k.lo + j - 1) ELSE k.last[j]
 Args(k, j) == k.pre \o <<LastVal(k, j)>>
-\* the driver evaluated values that the declared argument types can hold
-TypesOk(k, j) == Len(k.T) = Len(k.pre) + 1 /\ \A p \in 1..Len(k.T) : k.T[p] \in Types /\ InType(k.T[p], Args(k, j)[p])
+\* the driver evaluated values of the declared argument types (it echoes each value after converting it to the type; the
+\* cheap part of the check is made on every case: a negative value needs a signed type)
+TypesOk(k, j) == Len(k.T) = Len(k.pre) + 1 /\ \A p \in 1..Len(k.T) : k.T[p] \in Types /\ (Args(k, j)[p].neg => Signed(k.T[p]))
 Expected(k, j) ==
   CASE k.op = "less" -> (IF Less(k.pre[1], LastVal(k, j)) THEN 1 ELSE 0)
     [] k.op \in {"inc", "nat1", "nat2", "nat3"} -> Sum(k.S, Args(k, j))
